@@ -27,6 +27,8 @@ def run_program(prog: dict) -> list[dict]:
     for step, op in enumerate(prog["prog"]):
         preL, preT = loaders.project(L), loaders.project_mol(T)
         preS = loaders.project(S) if S is not None else loaders.NOLDR
+        if op["name"] in ("add_loader", "from_loaders") and preL["bin"] == 1:
+            op = dict(op, codes=loaders.fresh2(L))
         if op["name"] == "swap":
             res, obs, groups, groups2, err, extra = L, [], [], [], "", dict(codes=[], avg_n=0)
         else:
@@ -41,7 +43,7 @@ def run_program(prog: dict) -> list[dict]:
             S=loaders.project(S) if S is not None else loaders.NOLDR,
             sobs=sobs,
             L=loaders.project(L),
-            T=loaders.project_mol(T),
+            T=loaders.project_mol(T) if not extra.get("operand_changed") else dict(cols=[], rows=[]),
             res=loaders.project(res) if res is not None else loaders.NOLDR,
             obs=obs,
             groups=groups,
@@ -55,7 +57,7 @@ def run_program(prog: dict) -> list[dict]:
             L, S = S, L
         elif not err and res is not None and op["name"] == "fork":
             S, L = L, res
-        elif not err and res is not None and op["name"] in ("derive", "add_tomogram"):
+        elif not err and res is not None and op["name"] in ("derive", "add_tomogram", "add_loader", "from_loaders"):
             L = res
     return events
 
